@@ -1798,8 +1798,9 @@ Proof.
   rewrite print_list_items. destruct l as [|p l]; [cbn [length]; lia|].
   cbn [length]. assert (H : forall l, (length l <= length (plist_items l))%nat).
   { clear. induction l as [|p l IH]; [cbn [length]; lia|].
-    unfold plist_items. cbn [flat_map]. fold (plist_items l). rewrite app_length. cbn [length]. lia. }
-  specialize (H (p :: l)). cbn [length] in H. apply le_S, le_S. exact H.
+    unfold plist_items. cbn [flat_map]. fold (plist_items l). rewrite app_length. cbn [length].
+    unfold byte in *. lia. }
+  specialize (H (p :: l)). cbn [length] in H. unfold byte in *. lia.
 Qed.
 
 Lemma print_stmt_length st :
@@ -1830,7 +1831,7 @@ Proof.
   intros chk stmts Hwf Hchk. unfold parse_gen, parse_raw, print_dyndep.
   rewrite <- app_assoc.
   set (X := print_body stmts ++ [0]).
-  set (fuel0 := S (length (s_version_line ++ X))).
+  set (n := length (s_version_line ++ X)).
   cbn [parse_loop].
   replace (read_token (s_version_line ++ X))
     with (Ok (T_IDENT, s_version_line ++ X, 61 :: 32 :: 49 :: 10 :: X)) by reflexivity.
@@ -1838,10 +1839,10 @@ Proof.
   replace (parse_version (s_version_line ++ X)) with (Ok X) by reflexivity.
   cbv beta iota. subst X.
   destruct (print_body_length stmts) as [L1 L2].
-  assert (Hlen : (length (print_body stmts) < length (s_version_line ++ print_body stmts ++ [0]))%nat).
-  { rewrite !app_length. cbn [length]. lia. }
-  rewrite (parse_loop_print chk fuel0 stmts _ [] Hwf Hchk); [reflexivity|lia|].
-  eapply Forall_impl; [|exact L2]. cbv beta. intros a [Ha Hb]. subst fuel0. split; lia.
+  assert (Hlen : (length (print_body stmts) < n)%nat).
+  { subst n. rewrite !app_length. cbn [length]. lia. }
+  rewrite (parse_loop_print chk (S n) stmts n [] Hwf Hchk); [reflexivity|lia|].
+  eapply Forall_impl; [|exact L2]. cbv beta. intros a [Ha Hb]. split; lia.
 Qed.
 
 Lemma chk_passes_no_chk seen stmts : chk_passes no_chk seen stmts.
